@@ -161,7 +161,8 @@ class Check(FormulaCheck):
                 vals[rnd.randrange(n)] = rnd.choice([True, False])
             return vals
         words = ['apple', 'pear', 'Plum', 'fig', 'kiwi', 'Lime', 'date', 'nut', 'yam', 'pea', 'oat', 'rye', 'bean', 'corn', 'leek', 'kale', 'a,b', 'x y', '']
-        pool = [w + s for s in ('', '2', '_z', '!') for w in words]
+        # (suffixes include the characters that pattern languages other than * and ? give a meaning to: an item is found by its own text)
+        pool = [w + s for s in ('', '2', '_z', '!', '[1]', ']', '[a-z]', '[!x]', '(1)', '+', '.', '^$', '{2}', '|') for w in words]
         return rnd.sample(pool, n)
 
     def c_index(self, spec, rec):
@@ -271,9 +272,11 @@ class Check(FormulaCheck):
                 pat = w[:j] + '?' + w[j + 1:]
             else:
                 pat = rnd.choice(['zzz', 'a?', '*q*', 'apple pie', w + 'x'])
-            if '[' in pat or '"' in pat:
+            if '"' in pat:
                 continue
-            exp = next((i + 1 for i, v in enumerate(words) if fnmatch.fnmatchcase(v.lower(), pat.lower())), 'ERR:#N/A')
+            # only * and ? are wildcards (the oracle is written without fnmatch, which also reads [...] as a character class)
+            from .c11 import wild
+            exp = next((i + 1 for i, v in enumerate(words) if wild(pat.lower(), v.lower())), 'ERR:#N/A')
             g = self.ev('MATCH(%s,%s,0)' % (hx.strlit(pat), a_txt))
             self.expect('C18/MATCH-text' + (':wildcard' if ('*' in pat or '?' in pat) else ':case'), g == exp, array=words, pattern=pat, got=g, expected=exp)
             rec.nt(('mt', tuple(words), pat))
